@@ -5,6 +5,7 @@ import (
 	"bytes"
 	"errors"
 	"fmt"
+	"os"
 	"strings"
 
 	"verif/simrt"
@@ -30,7 +31,9 @@ type sinkObs struct {
 	Fired      bool
 	Skipped    bool
 	StdWriters int
-	Collected  bool
+	// FileWriters: failing *os.File writers exercised (closed file, file opened read-only)
+	FileWriters int
+	Collected   bool
 }
 
 // checkC20 evaluates the first sentence of C20 for one document and one
@@ -101,6 +104,45 @@ func checkC20(s *Scenario) (*Failure, *sinkObs) {
 			}
 		}
 		obs.StdWriters = 3
+		// ... and *os.File values: healthy (an unlinked temporary file, read
+		// back), and failing in the ways a real file fails - closed before the
+		// call, opened read-only.  Every write of those fails with the file's
+		// own error, so Format must report an error (a buffering layer whose
+		// flush error is dropped reports nil) and nothing may reach the file.
+		if len(hw.Buf) > 0 && len(hw.Buf)%3 == 0 {
+			if f, err := os.CreateTemp(os.Getenv("VERIF_SCRATCH_DIR"), "simout"); err == nil {
+				name := f.Name()
+				ferr := formatBlocks(f, blocks)
+				got, rerr := os.ReadFile(name)
+				f.Close()
+				if ferr != nil {
+					os.Remove(name)
+					return &Failure{Check: "healthy-err", Observed: fmt.Sprintf("Format into a healthy *os.File returned %v", ferr)}, obs
+				}
+				if rerr == nil && !bytes.Equal(got, hw.Buf) {
+					os.Remove(name)
+					return &Failure{Check: "determinism", Observed: "Format into an *os.File: " + firstDiff(string(hw.Buf), string(got))}, obs
+				}
+				// closed before the call
+				cerr := formatBlocks(f, blocks)
+				if cerr == nil {
+					os.Remove(name)
+					return &Failure{Check: "first-error", Observed: "Format into a CLOSED *os.File returned nil", Expected: "the file's error (" + os.ErrClosed.Error() + ")"}, obs
+				}
+				obs.FileWriters++
+				// opened read-only
+				if ro, oerr := os.Open(name); oerr == nil {
+					rerr2 := formatBlocks(ro, blocks)
+					ro.Close()
+					if rerr2 == nil {
+						os.Remove(name)
+						return &Failure{Check: "first-error", Observed: "Format into an *os.File opened read-only returned nil", Expected: "the file's write error"}, obs
+					}
+					obs.FileWriters++
+				}
+				os.Remove(name)
+			}
+		}
 		if after := snapAll(blocks); after != before {
 			return &Failure{Check: "tree-touched", Observed: firstDiff(before, after)}, obs
 		}
@@ -136,8 +178,8 @@ func checkC20(s *Scenario) (*Failure, *sinkObs) {
 	if fwr.AfterFail > 0 {
 		return &Failure{Check: "write-after-fail", Observed: fmt.Sprintf("%d write calls after the failing call #%d (returned error: %v)", fwr.AfterFail, fwr.Calls-fwr.AfterFail-1, err)}, obs
 	}
-	if err == nil || !errors.Is(err, errWriteFirst) || errors.Is(err, errWriteLater) {
-		return &Failure{Check: "first-error", Observed: fmt.Sprintf("Format returned %v", err), Expected: "an error wrapping " + errWriteFirst.Error()}, obs
+	if want := writerFaultErr(s.Writer.Err); err == nil || !errors.Is(err, want) || errors.Is(err, errWriteLater) {
+		return &Failure{Check: "first-error", Observed: fmt.Sprintf("Format returned %v", err), Expected: "an error wrapping " + want.Error()}, obs
 	}
 	if !bytes.HasPrefix(hw.Buf, fwr.Buf) {
 		return &Failure{Check: "prefix", Observed: "bytes accepted before the failure are not a prefix of the healthy output: " + firstDiff(string(hw.Buf), string(fwr.Buf))}, obs
